@@ -310,7 +310,7 @@ namespace
             ++compared;
             if (L[i] > z)
                 filled_something = true;
-            std::int64_t ex = ord(h) - ord(L[i]);
+            std::int64_t ex = ord_diff(h, L[i]);
             if (ex < 0)
             {
                 c.fail(P, "below_spill_level/" + c.cfg, "node " + std::to_string(i) + " z=" + jhex(z) + " h=" + jhex(h) + " spill=" + jhex(L[i]));
@@ -528,7 +528,7 @@ namespace
     {
         if (a == b)
             return true;
-        std::int64_t d = ord(a) - ord(b);
+        std::int64_t d = ord_diff(a, b);
         return (d < 0 ? -d : d) <= ulps;
     }
 
